@@ -9,7 +9,7 @@
    Proofs/ConfigFacts (approved_build, counter_entry, stack_entry). *)
 From Coq Require Import List ZArith NArith Bool.
 From Tele Require Import Lib.Bytes Lib.Str Lib.Assoc Lib.Calendar Model.Config Model.ApprovalSpec Model.Report
-  Model.Approval Proofs.ConfigFacts Proofs.AggregateFacts Proofs.ReportFacts Proofs.ApprovalFacts.
+  Model.Approval Proofs.ConfigFacts Proofs.AggregateFacts Proofs.ReportFacts Proofs.ApprovalFacts Proofs.ApprovalOracle.
 Import ListNotations.
 From Coq Require Import String. Open Scope string_scope. Open Scope N_scope. Open Scope list_scope.
 
@@ -132,6 +132,14 @@ Theorem C11_server_oracle_model : forall u from_uploader semver_ok r,
   cl = AXZero /\ x_is_zero (r_x r) = true /\ from_uploader = true.
 Proof. exact server_check_model. Qed.
 Print Assumptions C11_server_oracle_model.
+
+(* The executable viewer oracle reports nothing on the model's summary,
+   ActiveMeta, Active flags and X = 0 upload, for every configuration and file. *)
+Theorem C11_viewer_oracle_model : forall u f,
+  viewer_check u f (viewer_summary (new_config u) f) (viewer_active_meta (new_config u) (f_ident f))
+               (viewer_active (new_config u) f) (Some (filter_upload (new_config u) 0 (aggregate [f]))) = [].
+Proof. exact viewer_check_model. Qed.
+Print Assumptions C11_viewer_oracle_model.
 
 (* ---- Non-vacuity *)
 Definition ex_cfg : upload_cfg :=
